@@ -475,6 +475,9 @@ func (c *compiler) compileQueryUpdate(l, r *Query, op Operator) error {
 	case OpAssign:
 		// optimize assignment operator with constant indexing and slicing
 		//   .foo.[0].[1:2] = f => setpath(["foo",0,{"start":1,"end":2}]; f)
+		if verifOff(verifOptAssignPath) {
+			return c.compileFunc(&Func{Name: op.getFunc(), Args: []*Query{l, r}})
+		}
 		if xs := l.toIndices(nil); xs != nil {
 			// ref: compileCall
 			v := c.newVariable()
@@ -559,6 +562,10 @@ func (c *compiler) compileBind(l, r *Query, patterns []*Pattern) error {
 	}
 	if len(patterns) > 1 {
 		pc = len(c.codes)
+	}
+	if verifOff(verifOptExpRemove) {
+		c.append(&code{op: opexpend})
+		return c.compileQuery(r)
 	}
 	if len(patterns) == 1 && c.codes[len(c.codes)-2].op == opexpbegin {
 		c.codes[len(c.codes)-2].op = opnop
@@ -645,6 +652,9 @@ func (c *compiler) compileIf(e *If) error {
 		return err
 	}
 	f()
+	if verifOff(verifOptExpRemove) && pc == len(c.codes) {
+		c.append(&code{op: opnop})
+	}
 	if pc == len(c.codes) {
 		c.codes = c.codes[:pc-1]
 	} else {
@@ -669,6 +679,9 @@ func (c *compiler) compileIf(e *If) error {
 	if e.Else != nil {
 		defer c.newScopeDepth()()
 		defer func() {
+			if verifOff(verifOptIfConst) {
+				return
+			}
 			// optimize constant results
 			//    opdup, ..., opjumpifnot, opconst, opjump, opconst
 			// => opnop, ..., opjumpifnot, oppush,  opjump, oppush
@@ -857,6 +870,10 @@ func (c *compiler) compileTerm(e *Term) error {
 }
 
 func (c *compiler) compileIndex(e *Term, x *Index) error {
+	if verifOff(verifOptIndexKey) {
+		c.appendCodeInfo(x)
+		return c.verifCompileIndex(e, x)
+	}
 	if k := x.toIndexKey(); k != nil {
 		if err := c.compileTerm(e); err != nil {
 			return err
@@ -1308,6 +1325,9 @@ func (c *compiler) compileObject(e *Object) error {
 		}
 	}
 	c.append(&code{op: opobject, v: len(e.KeyVals)})
+	if verifOff(verifOptConstObject) {
+		return nil
+	}
 	// optimize constant objects
 	l := len(e.KeyVals)
 	if pc+l*3+1 != len(c.codes) {
@@ -1408,6 +1428,9 @@ func (c *compiler) compileArray(e *Array) error {
 	if e.Query.Op == OpPipe {
 		return nil
 	}
+	if verifOff(verifOptConstArray) {
+		return nil
+	}
 	// optimize constant arrays
 	if (len(c.codes)-pc)%3 != 0 {
 		return nil
@@ -1431,6 +1454,9 @@ func (c *compiler) compileArray(e *Array) error {
 
 func (c *compiler) compileUnary(e *Unary) error {
 	c.appendCodeInfo(e)
+	if verifOff(verifOptConstUnary) {
+		return c.verifCompileUnary(e)
+	}
 	if v := e.toNumber(); v != nil {
 		c.append(&code{op: opconst, v: v})
 		return nil
@@ -1585,6 +1611,12 @@ func (c *compiler) compileCallInternal(
 			return err
 		}
 		if internal {
+			if c.verifNoInline(len(c.codes) - pc) {
+				c.append(&code{op: opload, v: v})
+				c.append(&code{op: oppushpc, v: pc})
+				c.append(&code{op: opcallpc})
+				goto verifInlined
+			}
 			switch len(c.codes) - pc {
 			case 2: // optimize identity argument (opscope, opret)
 				j := len(c.codes) - 3
@@ -1614,7 +1646,12 @@ func (c *compiler) compileCallInternal(
 		} else {
 			c.append(&code{op: oppushpc, v: pc})
 		}
+	verifInlined:
 		if i == indexing {
+			if verifOff(verifOptExpRemove) {
+				c.append(&code{op: opexpend})
+				continue
+			}
 			if c.codes[len(c.codes)-2].op == opexpbegin {
 				c.codes[len(c.codes)-2] = c.codes[len(c.codes)-1]
 				c.codes = c.codes[:len(c.codes)-1]
@@ -1647,6 +1684,9 @@ func (c *compiler) lazy(f func() *code) func() {
 }
 
 func (c *compiler) optimizeTailRec() {
+	if verifOff(verifOptTailRec) {
+		return
+	}
 	var pcs []int
 	scopes := map[int]bool{}
 L:
@@ -1691,6 +1731,9 @@ L:
 }
 
 func (c *compiler) optimizeCodeOps() {
+	if verifOff(verifOptCodeOps) {
+		return
+	}
 	for i, next := len(c.codes)-1, (*code)(nil); i >= 0; i-- {
 		code := c.codes[i]
 		switch code.op {
